@@ -278,6 +278,10 @@ class Check:
         self.known_hits = {}
         self.rule = ""
         self.exhaustive = None
+        # replay files of an earlier run of this check are stale once it runs again
+        import glob
+        for f in glob.glob(os.path.join(REPLAYS, "%s-*.json" % pid)):
+            os.remove(f)
 
     def add_tlc(self, r):
         self.states += r.distinct
